@@ -1,6 +1,6 @@
 SPECIFICATION Spec
 CONSTANTS
-  Heights = {1, 2, 3, 5, 40}
+  Heights = {1, 2, 3, 9}
   Texts <- MCTexts
 INVARIANT Laws
 CHECK_DEADLOCK FALSE
